@@ -8,7 +8,7 @@ tree after the R15c fix 74ce665 (the Appendix B.2 state is put back when the res
 The Sender Key, Recipient Key and Common IV are functions of the ID Context (`oscore_update_ctx` re-derives all three
 from `osc_ctx->id_context`), so the state is `b_2_step` and the ID Context.  Covered: responses that do NOT verify
 (any kid context field, any step).  NOT covered (not tied to the compiled code): verified responses — the step 3 trap
-(`R2 || R3`, retransmission), the server side (`oscore_duplicate_ctx`, steps 2 and 4).  Core Lean only.
+(`R2 || R3`, retransmission), and verified requests on the server side (below: requests that do not verify).  Core Lean only.
 -/
 namespace Coap.ReplayB2
 open Coap.Replay
@@ -79,5 +79,74 @@ def recvForgedUnpatched (s : B2) (kc : Option (List Nat)) : B2 :=
 def run : B2 → List (Option (List Nat)) → List (Verdict × B2)
   | _, [] => []
   | s, kc :: r => let x := recvForged s kc; (x.2, x.1) :: run x.1 r
+
+/-! ### Server side: the request path
+
+`coap_oscore_decrypt_pdu`, request branch, from `oscore_find_context(…, &cose->kid_context, NULL, …)` to the error exits,
+for requests that do NOT verify; the kid of the request is the recipient id of every security context of the
+`coap_context_t` (the setting of the op `b2s`), all contexts have `rfc8613_b_2` set and `OSCORE_MODE_SINGLE`.
+Transcribed from the tree after fix 28543ff. -/
+
+/-- `session->b_2_step`, `session->oscore_r2` (`none` = 0) and the ID Context (`none` = NULL) of every security context
+in chain order. -/
+structure Srv where
+  step : Nat
+  r2 : Option (List Nat)
+  ctxs : List (Option (List Nat))
+  deriving DecidableEq, Repr
+
+/-- `oscore_find_context(c, kid, &kid_context, NULL, …)`, recipient id equal: position of the first context whose ID
+Context equals the kid context field as received (a context without ID Context matches the empty field only) -/
+def findExact (ctxs : List (Option (List Nat))) (w : List Nat) : Option Nat :=
+  ctxs.findIdx? (fun c => match c with
+    | some i => decide (i.length = w.length) && (decide (w.length = 0) || decide (i = w))
+    | none => decide (w.length = 0))
+
+/-- `oscore_find_context(c, kid, NULL, oscore_r2 != 0 ? &oscore_r2 : NULL, …)`: with R2 the first context whose ID
+Context is longer than 8 bytes and starts with R2, without it the first context -/
+def findB2 (ctxs : List (Option (List Nat))) (r2 : Option (List Nat)) : Option Nat :=
+  match r2 with
+  | none => ctxs.findIdx? (fun _ => true)
+  | some r => ctxs.findIdx? (fun c => match c with
+    | some i => decide (i.length > 8) && decide (i.take 8 = r)
+    | none => false)
+
+/-- what the request path does with the contexts BEFORE the request is verified: `none` = no security context
+("Security context not found", 4.01); `some (s', restore)`: the state it leaves and whether `b_2_restore` is set -/
+def srvUpdate (s : Srv) (w : List Nat) : Option (Srv × Bool) :=
+  match findExact s.ctxs w with
+  | some _ =>
+    -- else if (session->b_2_step != COAP_OSCORE_B_2_NONE) session->b_2_step = COAP_OSCORE_B_2_NONE;   ("server finished")
+    some ({ s with step := 0 }, false)
+  | none =>
+    if w.length > 0 then
+      match findB2 s.ctxs s.r2 with
+      | none => none
+      | some idx =>
+        match unwrap w with
+        | none => none                                         -- osc_ctx = NULL
+        | some k =>
+          match s.r2 with
+          | some _ => some ({ s with step := 4, ctxs := s.ctxs.set idx (some k) }, true)      -- step 4: oscore_update_ctx
+          | none => some ({ s with step := 2, ctxs := s.ctxs ++ [some k] }, true)             -- step 2: oscore_duplicate_ctx
+    else none
+
+/-- A request that does not verify (kid context field `w`): verdict (`rej401`: no context / `rej400`: decryption failed)
+and the state after the error exit — `if (b_2_restore) { b_2_step = b_2_prev_step; oscore_update_ctx(prev ID Context);
+oscore_remove_context(the context set up for the request) }`. -/
+def recvForgedReq (s : Srv) (w : List Nat) : Srv × Verdict :=
+  match srvUpdate s w with
+  | none => (s, .rej401)
+  | some (s1, restore) =>
+    if restore then ({ s1 with step := s.step, ctxs := s.ctxs }, .rej400)
+    else (s1, .rej400)
+
+/-- the state the unpatched code left -/
+def recvForgedReqUnpatched (s : Srv) (w : List Nat) : Srv :=
+  match srvUpdate s w with | none => s | some (s1, _) => s1
+
+def runSrv : Srv → List (List Nat) → List (Verdict × Srv)
+  | _, [] => []
+  | s, w :: r => let x := recvForgedReq s w; (x.2, x.1) :: runSrv x.1 r
 
 end Coap.ReplayB2
